@@ -196,6 +196,21 @@ static void RN(sc_intersect_cross) (T *t)
     RF(fini) (&a); RF(fini) (&b);
 }
 
+/* the shortcuts of the set operations: one operand is a single rectangle that contains (or is contained in) the other, so the result is a plain COPY of
+ * one operand - which allocates, and whose failure must come back to the caller like any other */
+static void RN(sc_covering_operand) (T *t)
+{
+    RT a, one, d; int ok, hf; int n = t->thorough ? 12 : 6;
+    RN(stripes_v) (t, &a, n, 0, 0, 4 * n);
+    RF(init_rect) (&one, -5, -5, 8 * n + 40, 8 * n + 40); RF(init) (&d);
+    RWIN (RF(intersect) (&d, &one, &a)); RN(result) (t, "intersect(fresh,covering-rect,v-stripes)", ok, hf, &d); RF(fini) (&d); RF(init) (&d);
+    RWIN (RF(intersect) (&d, &a, &one)); RN(result) (t, "intersect(fresh,v-stripes,covering-rect)", ok, hf, &d); RF(fini) (&d); RF(init) (&d);
+    RWIN (RF(union) (&d, &a, &a)); RN(result) (t, "union(fresh,v-stripes,the same)", ok, hf, &d); RF(fini) (&d); RF(init) (&d);
+    { RT e; RF(init) (&e); RWIN (RF(union) (&d, &a, &e)); RN(result) (t, "union(fresh,v-stripes,empty)", ok, hf, &d); RF(fini) (&d); RF(init) (&d);
+      RWIN (RF(subtract) (&d, &a, &e)); RN(result) (t, "subtract(fresh,v-stripes,empty)", ok, hf, &d); RF(fini) (&d); RF(fini) (&e); }
+    RF(fini) (&a); RF(fini) (&one);
+}
+
 static void RN(sc_subtract_cross) (T *t)
 {
     RT a, b, d; int ok, hf; int n = t->thorough ? 12 : 6;
